@@ -131,6 +131,7 @@ func c14Scenario(c *fw.Ctx, s int) {
 		dests      map[int]bool
 		expectAck  bool
 		id         int
+		qos        int
 	}
 	sent := []*sentMsg{}
 	seqNo := 0
@@ -202,9 +203,17 @@ func c14Scenario(c *fw.Ctx, s int) {
 					}
 				}
 				from := pubs[pi].NumEvents()
-				if err := pubs[pi].Send(kit.EncPublish(topic, []byte(m.tag), 1, false, false, m.id)); err != nil {
+				m.qos = 1 + seqNo%2
+				if err := pubs[pi].Send(kit.EncPublish(topic, []byte(m.tag), m.qos, false, false, m.id)); err != nil {
 					c.Inconclusive("publisher write failed: " + err.Error())
 					return
+				}
+				if m.qos == 2 {
+					if _, _, err := pubs[pi].WaitFor(from, kit.DefaultWait, func(e kit.Event) bool { return e.Pkt.Type == kit.PUBREC && e.Pkt.ID == m.id }); err != nil {
+						c.Violation("pubrec-missing", fmt.Sprintf("scenario %d: QoS 2 publish on %q got no PUBREC: %v", s, topic, err), wit(m, nil))
+						return
+					}
+					pubs[pi].Send(kit.EncPubRel(m.id))
 				}
 				// distribution finished when every expected RPC has returned and the local append is recorded
 				if !waitCount(func() int { return len(cl.RPCLog()) - rpcBefore }, remoteDests, 30*time.Second) {
@@ -216,7 +225,11 @@ func c14Scenario(c *fw.Ctx, s int) {
 					return
 				}
 				if m.expectAck {
-					if _, _, err := pubs[pi].WaitFor(from, kit.DefaultWait, func(e kit.Event) bool { return e.Pkt.Type == kit.PUBACK && e.Pkt.ID == m.id }); err != nil {
+					ackType := kit.PUBACK
+					if m.qos == 2 {
+						ackType = kit.PUBCOMP
+					}
+					if _, _, err := pubs[pi].WaitFor(from, kit.DefaultWait, func(e kit.Event) bool { return e.Pkt.Type == ackType && e.Pkt.ID == m.id }); err != nil {
 						c.Violation("ack-withheld", fmt.Sprintf("scenario %d: publish on %q from n%d with every destination reachable (unreachable: %v) was not acknowledged: %v", s, topic, pn+1, m.unreach, err), wit(m, nil))
 						return
 					}
@@ -265,7 +278,7 @@ func c14Scenario(c *fw.Ctx, s int) {
 		}
 		acks := 0
 		for _, e := range pubs[m.pub].Events() {
-			if e.Pkt.Type == kit.PUBACK && e.Pkt.ID == m.id {
+			if (e.Pkt.Type == kit.PUBACK || e.Pkt.Type == kit.PUBCOMP) && e.Pkt.ID == m.id {
 				acks++
 			}
 		}
@@ -323,7 +336,7 @@ func keys1(m map[int]bool) []int {
 
 func runC14(c *fw.Ctx) {
 	c.Level = "fault_enumeration"
-	c.Rule = "seeded placements of 1-2 publishers and 1-4 subscribers (1-2 filters each) over 2-3 broker nodes connected by real gRPC (bufconn) with manual gossip; for every topic of the list, every publisher and EVERY subset of the other nodes made unreachable at the RPC boundary, one tagged QoS 1 publish. Observed: Append calls per node and tag (recording log), RPC calls, PUBACKs, packets at every subscriber after a sentinel barrier. Oracle: appends(tag,node) = 1 iff the node hosts a matching subscription and is reachable (or is the publisher's node), else 0; one delivery per matching filter from the subscriber's own node; acknowledgement withheld iff an unreachable node is a destination. distinct = (placement, topic, publisher, unreachable subset); non-trivial = the publish has >=1 destination node"
+	c.Rule = "seeded placements of 1-2 publishers and 1-4 subscribers (1-2 filters each) over 2-3 broker nodes connected by real gRPC (bufconn) with manual gossip; for every topic of the list, every publisher and EVERY subset of the other nodes made unreachable at the RPC boundary, one tagged publish (QoS 1 and QoS 2 alternating, full handshake). Observed: Append calls per node and tag (recording log), RPC calls, PUBACKs, packets at every subscriber after a sentinel barrier. Oracle: appends(tag,node) = 1 iff the node hosts a matching subscription and is reachable (or is the publisher's node), else 0; one delivery per matching filter from the subscriber's own node; acknowledgement withheld iff an unreachable node is a destination. distinct = (placement, topic, publisher, unreachable subset); non-trivial = the publish has >=1 destination node"
 	c.Assume("subscriptions are gossiped to every node before publishing (gossip barrier), so 'known to the publishing node' = all")
 	c.Assume("a wrongly sent acknowledgement is looked for until the end of the scenario (sentinel barrier + 100 ms)")
 	n := c.Pick(40, 400)
